@@ -88,6 +88,8 @@ def _gen_seq(rng, small=False):
             d['spq'] = 4
         else:
             d['sps'] = 100
+    if rng.random() < 0.05 and d['notes']:
+        d['notes'].append([d['notes'][0][0], 64, d['total'], d['total'], 0, 0, 0, 0, 0, 0])   # zero length, at total_time
     if rng.random() < 0.3:
         # the input is itself a piece of an earlier extraction: it already carries a subsequence_info
         d['sub'] = [rng.randint(0, 12) * Q + rng.choice([0, 0, 1, 1 << 20]), rng.randint(0, 12) * Q]
@@ -143,6 +145,19 @@ def _two_step(rng, d):
     return {'op': 'two_step', 'input': {'seq': d, 'first': first, 'pick': rng.randint(0, 7), 'second': _second(rng)}}
 
 
+def _gen_pres(rng):
+    """preserve_control_numbers: None (default), an explicit empty list, or other number sets (also as tuple-free
+    lists containing non-pedal numbers that do occur in the generated control changes: 7, 1)"""
+    if rng.random() < 0.7:
+        return None
+    return rng.choice([[], [], [64], [67], [7, 64], [1, 66, 67], [66, 64], [7], [64, 66, 67, 1, 7]])
+
+
+def _omit(rng):
+    """1: keyword arguments whose requested value is the documented default are not passed at all"""
+    return int(rng.random() < 0.5)
+
+
 def _one(rng, small=False):
     d = _gen_seq(rng, small)
     if rng.random() < 0.12:
@@ -152,16 +167,16 @@ def _one(rng, small=False):
         return _two_step(rng, d)
     r = rng.random()
     if r < 0.40:
-        pres = None
-        if rng.random() < 0.1:
-            pres = rng.choice([[64], [], [7, 64], [1, 66, 67]])
-        return {'op': 'extract', 'input': {'seq': d, 'ts': _gen_ts(rng, d), 'pres': pres}}
+        ts = _gen_ts(rng, d)
+        if rng.random() < 0.04:
+            ts = sorted([-rng.randint(1, 4) * Q] + ts)       # a cut before time zero is legal
+        return {'op': 'extract', 'input': {'seq': d, 'ts': ts, 'pres': _gen_pres(rng), 'omit': _omit(rng)}}
     if r < 0.47:
         ts = _gen_ts(rng, d, allow_bad=False)
         a, b = ts[0], ts[-1]
         if rng.random() < 0.1:
             a, b = b, a
-        return {'op': 'extract1', 'input': {'seq': d, 'a': a, 'b': b}}
+        return {'op': 'extract1', 'input': {'seq': d, 'a': a, 'b': b, 'pres': _gen_pres(rng), 'omit': _omit(rng)}}
     if r < 0.52:
         ts = _gen_ts(rng, d, allow_bad=False)
         a, b = ts[0], ts[-1]
@@ -182,7 +197,7 @@ def _one(rng, small=False):
         if hop > 0 and d['total'] // hop > 48:
             # keep the number of pieces small (np.arange + one deep copy per piece in the code)
             hop = ((d['total'] // 48) // HOP_UNIT + 1) * HOP_UNIT
-        return {'op': 'split_hop', 'input': {'seq': d, 'hop': hop, 'skip': int(rng.random() < 0.5)}}
+        return {'op': 'split_hop', 'input': {'seq': d, 'hop': hop, 'skip': int(rng.random() < 0.5), 'omit': _omit(rng)}}
     if r < 0.78:
         pool = _times_of(d)
         hi = max(4, d['total'] // Q + 2)
@@ -191,7 +206,7 @@ def _one(rng, small=False):
             l = sorted(set(t for t in l if 0 < t < d['total']))
             if rng.random() < 0.5:
                 rng.shuffle(l)
-        return {'op': 'split_list', 'input': {'seq': d, 'times': l, 'skip': int(rng.random() < 0.5)}}
+        return {'op': 'split_list', 'input': {'seq': d, 'times': l, 'skip': int(rng.random() < 0.5), 'omit': _omit(rng)}}
     if r < 0.90:
         # make "didn't actually change" events likely
         for t in d['tsigs']:
@@ -200,8 +215,15 @@ def _one(rng, small=False):
         for t in d['tempos']:
             if rng.random() < 0.4:
                 t[1] = 120 << nsio.QPM_BITS
-        return {'op': 'split_tc', 'input': {'seq': d, 'skip': int(rng.random() < 0.5)}}
-    gap = rng.choice([0, 1, Q, 2 * Q, 4 * Q, 12 * Q, rng.randint(0, 1 << 22) * HOP_UNIT])
+        return {'op': 'split_tc', 'input': {'seq': d, 'skip': int(rng.random() < 0.5), 'omit': _omit(rng)}}
+    gap = rng.choice([0, 1, Q, 2 * Q, 4 * Q, 12 * Q, 12 * Q - 1, 12 * Q + 1, rng.randint(0, 1 << 22) * HOP_UNIT, None, None,
+                      -Q if rng.random() < 0.3 else Q])
+    if gap is None or gap >= 12 * Q - 1:
+        # silences around the documented default of 3 s must exist for it to matter
+        for n in d['notes']:
+            if rng.random() < 0.3:
+                n[2] += 13 * Q; n[3] += 13 * Q
+        d['total'] = max([d['total']] + [n[3] for n in d['notes']])
     return {'op': 'split_silence', 'input': {'seq': d, 'gap': gap}}
 
 
@@ -270,6 +292,15 @@ def corpus():
         {'op': 'split_silence', 'input': {'seq': base, 'gap': 0}},
         # zero-length note exactly at total_time after a silence
         {'op': 'split_silence', 'input': {'seq': _d([_n(60, 0, q), _n(61, 8 * q, 8 * q)], total=8 * q), 'gap': q}},
+        {'op': 'split_list', 'input': {'seq': base, 'times': [], 'skip': 0, 'omit': 1}},
+        {'op': 'split_silence', 'input': {'seq': base, 'gap': None}},
+        {'op': 'split_silence', 'input': {'seq': _d([_n(60, 0, q), _n(61, 13 * q, 14 * q), _n(62, 27 * q, 28 * q)], total=28 * q),
+                                          'gap': None}},     # 3 s exactly is not a silence, 3.25 s is
+        {'op': 'extract', 'input': {'seq': base, 'ts': [-q, 6 * q, 12 * q], 'pres': [], 'omit': 0}},
+        {'op': 'extract1', 'input': {'seq': base, 'a': 3 * q, 'b': 9 * q, 'pres': [67, 7], 'omit': 0}},
+        {'op': 'extract1', 'input': {'seq': base, 'a': 3 * q, 'b': 9 * q, 'pres': None, 'omit': 1}},
+        {'op': 'extract', 'input': {'seq': base, 'ts': [0, 6 * q, 5 * q, 12 * q], 'pres': None, 'omit': 1}},   # unsorted pair not first
+        {'op': 'extract', 'input': {'seq': base, 'ts': [0, 6 * q, 12 * q, 12 * q], 'pres': None, 'omit': 1}},  # past-end start last
         # inputs that are themselves pieces of an earlier cut (subsequence_info already set)
         {'op': 'extract', 'input': {'seq': dict(base, sub=[5 * q, 2 * q]), 'ts': [q, 6 * q, 12 * q], 'pres': None}},
         {'op': 'split_hop', 'input': {'seq': dict(base, sub=[3 * q, 0]), 'hop': 4 * q, 'skip': 0}},
@@ -308,24 +339,44 @@ def _texts_wire(d):
     return d
 
 
-def _call(op, a, ns):
+DEFAULT_GAP = 12 * Q        # documented default of gap_seconds: 3.0
+
+
+def _build(op, a):
+    """(function, positional arguments after the sequence, keyword arguments) for the requested call.  Keyword
+    arguments whose requested value is the documented default are left out when a['omit'] is set."""
     from note_seq import sequences_lib as sl
     f = nsio.t2f
+    omit = bool(a.get('omit'))
+    kw = {}
+    if op in ('extract', 'extract1'):
+        if not (omit and a.get('pres') is None):
+            kw['preserve_control_numbers'] = None if a.get('pres') is None else list(a['pres'])
+    if op in ('split_hop', 'split_list', 'split_tc'):
+        if not (omit and not a['skip']):
+            kw['skip_splits_inside_notes'] = bool(a['skip'])
     if op == 'extract':
-        return sl._extract_subsequences(ns, [f(t) for t in a['ts']], preserve_control_numbers=a['pres'])
+        return sl._extract_subsequences, [[f(t) for t in a['ts']]], kw
     if op == 'extract1':
-        return sl.extract_subsequence(ns, f(a['a']), f(a['b']))
+        return sl.extract_subsequence, [f(a['a']), f(a['b'])], kw
     if op == 'trim':
-        return sl.trim_note_sequence(ns, f(a['a']), f(a['b']))
+        return sl.trim_note_sequence, [f(a['a']), f(a['b'])], kw
     if op == 'split_hop':
-        return sl.split_note_sequence(ns, f(a['hop']), skip_splits_inside_notes=bool(a['skip']))
+        return sl.split_note_sequence, [f(a['hop'])], kw
     if op == 'split_list':
-        return sl.split_note_sequence(ns, [f(t) for t in a['times']], skip_splits_inside_notes=bool(a['skip']))
+        return sl.split_note_sequence, [[f(t) for t in a['times']]], kw
     if op == 'split_tc':
-        return sl.split_note_sequence_on_time_changes(ns, skip_splits_inside_notes=bool(a['skip']))
+        return sl.split_note_sequence_on_time_changes, [], kw
     if op == 'split_silence':
-        return sl.split_note_sequence_on_silence(ns, gap_seconds=f(a['gap']))
+        if a['gap'] is not None:
+            kw['gap_seconds'] = f(a['gap'])
+        return sl.split_note_sequence_on_silence, [], kw
     raise ValueError(op)
+
+
+def _call(op, a, ns):
+    fn, pos, kw = _build(op, a)
+    return fn(ns, *pos, **kw)
 
 
 STATS = {'cases': 0, 'exceptions': {}, 'cut_on_event_time': 0, 'cases_with_cuts': 0, 'pieces': 0,
@@ -418,24 +469,68 @@ def _resolve(case):
     return a2['op'], a2, ns
 
 
+FLAGS = ['input-modified', 'argument-list-modified', 'second-call-differs', 'earlier-result-changed-by-later-call',
+         'input-changed-by-editing-result', 'pieces-share-storage']
+
+
+def _canon_result(op, r):
+    if op == 'trim':
+        return canon_trim(nsio.to_wire(r))
+    if op == 'extract1':
+        return canon_piece(nsio.to_wire(r))
+    return [canon_piece(nsio.to_wire(p)) for p in r]
+
+
+def _scribble(q):
+    """Edit a returned sequence in place as a caller might."""
+    for n in q.notes:
+        n.pitch = 1; n.start_time += 1.0; n.end_time += 2.0
+    for lst in (q.tempos, q.time_signatures, q.key_signatures, q.text_annotations, q.control_changes):
+        for e in lst:
+            e.time += 1.0
+    del q.tempos[:]
+    q.total_time = 77.0
+    q.subsequence_info.start_time_offset = 99.0
+
+
 def _impl(case):
+    import copy
     op, a, ns = _resolve(case)
     if op is None:
         return ['NO-PIECE'] + list(a)
     before = ns.SerializeToString(deterministic=True)
+    fn, pos, kw = _build(op, a)
+    pos0, kw0 = copy.deepcopy(pos), copy.deepcopy(kw)
     try:
-        r = _call(op, a, ns)
+        r1 = fn(ns, *pos, **kw)
     except Exception as e:  # noqa
         name = type(e).__name__
         if op == 'split_hop' and a['hop'] == 0:
             name = 'HOP0'        # whichever exception a zero hop raises
-        return ['EXC', name]
-    same = int(ns.SerializeToString(deterministic=True) == before)
-    if op == 'trim':
-        return ['OK', canon_trim(nsio.to_wire(r)), same]
-    if op == 'extract1':
-        return ['OK', canon_piece(nsio.to_wire(r)), same]
-    return ['OK', [canon_piece(nsio.to_wire(p)) for p in r], same]
+        # nothing may have been modified before raising
+        return ['EXC', name, [int(ns.SerializeToString(deterministic=True) == before), int(pos == pos0 and kw == kw0)]]
+    flags = [int(ns.SerializeToString(deterministic=True) == before), int(pos == pos0 and kw == kw0)]
+    c1 = _canon_result(op, r1)
+    # the same call again on the same objects, the first result still alive
+    try:
+        r2 = fn(ns, *pos, **kw)
+        c2 = _canon_result(op, r2)
+    except Exception:  # noqa
+        r2, c2 = None, None
+    flags.append(int(c2 == c1))
+    flags.append(int(_canon_result(op, r1) == c1))
+    # edit the second result in place: neither the argument nor the first result may notice
+    if r2 is not None:
+        for q in ([r2] if op in ('trim', 'extract1') else r2):
+            _scribble(q)
+    flags.append(int(ns.SerializeToString(deterministic=True) == before and _canon_result(op, r1) == c1))
+    # edit the first piece of the first result: the other pieces may not notice
+    if op not in ('trim', 'extract1') and len(r1) >= 2:
+        _scribble(r1[0])
+        flags.append(int(_canon_result(op, r1[1:]) == c1[1:]))
+    else:
+        flags.append(1)
+    return ['OK', c1, flags]
 
 
 def model_input(case):
@@ -445,8 +540,10 @@ def model_input(case):
     w = nsio.to_wire(ns)
     if op == 'extract':
         return [1, w, a['ts'], int(a['pres'] is None), a['pres'] or []]
-    if op in ('extract1', 'trim'):
-        return [OPS[op], w, a['a'], a['b']]
+    if op == 'extract1':
+        return [2, w, a['a'], a['b'], int(a.get('pres') is None), a.get('pres') or []]
+    if op == 'trim':
+        return [3, w, a['a'], a['b']]
     if op == 'split_hop':
         return [4, w, a['hop'], a['skip']]
     if op == 'split_list':
@@ -454,7 +551,7 @@ def model_input(case):
     if op == 'split_tc':
         return [6, w, a['skip']]
     if op == 'split_silence':
-        return [7, w, a['gap']]
+        return [7, w, DEFAULT_GAP if a['gap'] is None else a['gap']]
 
 
 def _op2(case):
@@ -464,12 +561,13 @@ def _op2(case):
 def model_output(case, m):
     op = _op2(case)
     if m[0] == -1000:
-        return ['EXC', ERR.get(m[1], 'MODEL-ERR-%d' % m[1])]
+        return ['EXC', ERR.get(m[1], 'MODEL-ERR-%d' % m[1]), [1, 1]]
+    ok = [1] * len(FLAGS)
     if op == 'trim':
-        return ['OK', canon_trim(m[1]), 1]
+        return ['OK', canon_trim(m[1]), ok]
     if op == 'extract1':
-        return ['OK', canon_piece(m[1]), 1]
-    return ['OK', [canon_piece(p) for p in m[1]], 1]
+        return ['OK', canon_piece(m[1]), ok]
+    return ['OK', [canon_piece(p) for p in m[1]], ok]
 
 
 # ---------------------------------------------------------------- oracle: the property on the implementation
@@ -530,8 +628,9 @@ def expected_points(op, a, w):
     if op == 'split_silence':
         pts = [0]
         la = 0
+        gap = DEFAULT_GAP if a['gap'] is None else a['gap']       # documented default: 3.0 seconds
         for n in sorted(notes, key=lambda n: n[2]):
-            if n[2] > la + a['gap']:
+            if n[2] > la + gap:
                 pts.append(n[2])
             la = max(la, n[3])
         return _finish(pts, total)
@@ -600,6 +699,8 @@ def oracle(case, io):
     if op == 'trim':
         quant = w[10] > 0 or w[11] > 0
         if io[0] == 'EXC':
+            if io[2] != [1, 1]:
+                return {'kind': 'modified-before-raising', 'op': op, 'exc': io[1]}
             return None if quant and io[1] == 'QuantizationStatusError' else {'kind': 'unexpected-exception', 'exc': io[1], 'op': op}
         if quant:
             return {'kind': 'quantized-input-accepted', 'op': op}
@@ -611,9 +712,9 @@ def oracle(case, io):
             return {'kind': 'trim-total-time-wrong'}
         if got[2:] != [w[1], w[2], w[3], w[4], w[5], w[6], list(w[12])]:
             return {'kind': 'trim-touched-other-fields'}
-        if io[2] != 1:
-            return {'kind': 'input-modified', 'op': op}
-        return None
+        return _flag_failure(op, io)
+    if io[0] == 'EXC' and io[2] != [1, 1]:
+        return {'kind': 'modified-before-raising', 'op': op, 'exc': io[1], 'input_unchanged': io[2][0], 'arguments_unchanged': io[2][1]}
     if op == 'split_hop' and a['hop'] == 0:
         return None if io[0] == 'EXC' else {'kind': 'zero-hop-accepted'}
     pts = expected_points(op, a, w)
@@ -650,9 +751,9 @@ def oracle(case, io):
                     'got': pieces[i][8], 'want_start_offset': pts[i], 'input_subsequence_info': list(w[12])}
         return {'kind': 'split-points-differ', 'op': op, 'expected_points': pts, 'got_starts': starts}
     if op in ('split_hop', 'split_tc', 'split_silence') and not all(x < y for x, y in zip(pts[:-1], pts[1:])):
-        if not (op == 'split_silence' and (a['gap'] < 0 or any(n[3] < n[2] for n in w[0]))):
+        if not (op == 'split_silence' and ((a['gap'] or 0) < 0 or any(n[3] < n[2] for n in w[0]))):
             return {'kind': 'split-points-not-increasing', 'op': op, 'points': pts}
-    if op == 'extract' and a.get('pres') is not None:
+    if op in ('extract', 'extract1') and a.get('pres') is not None:
         pres = list(a['pres'])
     else:
         pres = list(PEDALS)      # the property names them: sustain, sostenuto, una corda
@@ -661,8 +762,13 @@ def oracle(case, io):
         if v:
             v['op'] = op
             return v
-    if io[2] != 1:
-        return {'kind': 'input-modified', 'op': op}
+    return _flag_failure(op, io)
+
+
+def _flag_failure(op, io):
+    for name, v in zip(FLAGS, io[2]):
+        if v != 1:
+            return {'kind': name, 'op': op}
     return None
 
 
